@@ -141,6 +141,19 @@ pub fn lexical_case(idx: u64, rng: &mut Rng) -> (String, String) {
     let style = *rng.pick(&[LayoutStyle::Spaces, LayoutStyle::Plain, LayoutStyle::Minimal, LayoutStyle::WildNoDoc]);
     let laid = gen::layout(&r.toks, rng, style, &r.forced);
     let mut text = laid.text;
+    if rng.chance(1, 5) {
+        // a character the library's own source mentions, at a file edge or at a random character boundary
+        if let Some(c) = crate::vocab::lex_safe_char(rng) {
+            let bounds: Vec<usize> = text.char_indices().map(|x| x.0).chain(std::iter::once(text.len())).collect();
+            let at = match rng.below(3) {
+                0 => 0,
+                1 => text.len(),
+                _ => bounds[rng.below(bounds.len())],
+            };
+            text.insert(at, c);
+            return ("dictionary_char".to_string(), text);
+        }
+    }
     let n = rng.range(1, 3);
     for _ in 0..n {
         text = mutate::char_splice(rng, &text);
